@@ -1,8 +1,11 @@
 (* Property C19 - the frame ring buffer returns exactly the retained history.
    This file contains only the property theorems (closed by `exact`), their
    non-vacuity examples and Print Assumptions. *)
+From Coq Require Import String.
 From Coq Require Import List ZArith Bool Arith.
-From TR Require Import model.Ring model.RingSpec proofs.RingProofs.
+From TR Require Import model.Ring model.RingSpec proofs.RingProofs model.GoSem translated.FrameLoop proofs.TieRing model.RingExt proofs.TieRingRun.
+(* constants and wiring read from the Go sources on every run *)
+From TR Require Import proofs.FactsRing.
 Import ListNotations.
 Open Scope Z_scope.
 
@@ -77,3 +80,52 @@ Example C19_ex1 :
   let r := fst (@reach Z 0 1 0 (frames [1;2;3] ++ [OPut 4])) in
   get_history r = Some [4] /\ recent 0 r = 4.
 Proof. vm_compute. auto. Qed.
+
+(* ---- source tie: motion/frameloop.go as it is in /repo now ----
+   coq/translated/FrameLoop.v is regenerated from the Go source on every run.  For every
+   well-formed loop (capacity >= 1, index in range, mark in range or unset), every outside
+   world and every meaning of the mutex calls, GetHistory / Oldest / Move / SetAsOldest / Reset
+   of the translated code compute exactly what the model above computes (on the ring of frame
+   handles), and GetHistory panics exactly where the model says the Go slice expression is out
+   of range.  A change to frameloop.go that changes any of this breaks these theorems. *)
+Theorem C19_source_GetHistory : forall (W : Type) (ext : string -> list arg -> W -> Z * W) fl w,
+    fl_wf fl ->
+    match get_history (ring_of fl) with
+    | Some h => exists fl', FrameLoop_GetHistory ext fl w = Ok (fl', h) w /\ same_ring fl' fl /\ fl_wf fl'
+    | None => FrameLoop_GetHistory ext fl w = Panicked w
+    end.
+Proof. exact @tie_GetHistory. Qed.
+
+Theorem C19_source_Oldest : forall (W : Type) (ext : string -> list arg -> W -> Z * W) fl w d,
+    fl_wf fl -> FrameLoop_Oldest ext fl w = Ok (fl, oldest_slot d (ring_of fl)) w.
+Proof. exact @tie_Oldest. Qed.
+
+Theorem C19_source_Move : forall (W : Type) (ext : string -> list arg -> W -> Z * W) fl w d,
+    fl_wf fl ->
+    exists fl', FrameLoop_Move ext fl w =
+                  Ok (fl', current d (ring_of fl'))
+                     (after_ext ext "FrameLoop.mu.Unlock" [] (after_ext ext "FrameLoop.mu.Lock" [] w)) /\
+                ring_of fl' = move (ring_of fl) /\
+                FrameLoop_orderedFrames fl' = FrameLoop_orderedFrames fl /\ fl_wf fl'.
+Proof. exact @tie_Move. Qed.
+
+Theorem C19_source_SetAsOldest : forall (W : Type) (ext : string -> list arg -> W -> Z * W) fl w d,
+    fl_wf fl ->
+    exists fl', FrameLoop_SetAsOldest ext fl w = Ok (fl', current d (ring_of fl')) w /\
+                ring_of fl' = set_as_oldest (ring_of fl) /\
+                FrameLoop_orderedFrames fl' = FrameLoop_orderedFrames fl /\ fl_wf fl'.
+Proof. exact @tie_SetAsOldest. Qed.
+
+Theorem C19_source_Reset : forall (W : Type) (ext : string -> list arg -> W -> Z * W) fl w,
+    exists fl', FrameLoop_Reset ext fl w = Ok (fl', tt) w /\
+                ring_of fl' = reset (ring_of fl) /\
+                FrameLoop_orderedFrames fl' = FrameLoop_orderedFrames fl.
+Proof. exact @tie_Reset. Qed.
+
+(* Trace level: the translated FrameLoop run on ANY sequence of put / move / set-as-oldest / reset
+   operations, for every capacity >= 1, shows after every operation exactly the model's
+   GetHistory, Oldest, CopyRecent and Current (contents; -99 where Go would panic).  With the
+   theorems above this carries C19 to the source as it is now. *)
+Theorem C19_source_trace : forall sz ops,
+    1 <= sz -> src_ring_run sz ops = model_trace4 (new_ring sz 0) ops.
+Proof. exact tie_ring_run. Qed.
